@@ -1,11 +1,13 @@
 (* C03 — Primitive field codecs are exact inverses and reject truncated input.
    Only statements and `exact`; the proofs are in Proofs/C03*.v.  Model: Model/Prim.v (bytes.Reader
-   semantics of ReadByte / one Read / io.ReadFull).  read_X true / spec_X is what the property demands,
-   read_X false / impl_X is the code as it exists; where they differ the difference is a recorded
-   finding (known_findings.jsonl C03-1..5), the property is proved for spec_X and refuted for impl_X
-   by a concrete input.  roundtrip_T: decode (encode v ++ rest) = Ok (v, rest), i.e. same value and
-   exactly the written bytes consumed.  prefix_rejected_T: every strict prefix p (encode v = p ++ q,
-   q non-empty) is an error. *)
+   semantics of ReadByte / one Read / io.ReadFull).  All theorems named roundtrip_T, prefix_rejected_T,
+   bad_length_rejected_T, alloc_bounded_T are about the model of the code AS IT IS NOW (impl_X and
+   the unprefixed definitions).  Findings C03-1..5 were repaired in /repo; old_X are the clearly
+   labelled PRE-FIX variants, and the theorems named old_... are historical facts about them
+   (refutation by a concrete input, equality with today's code off the trigger).
+   roundtrip_T: decode (encode v ++ rest) = Ok (v, rest), i.e. same value and exactly the written
+   bytes consumed.  prefix_rejected_T: every strict prefix p (encode v = p ++ q, q non-empty) is an
+   error. *)
 From Coq Require Import List NArith ZArith Bool.
 From Verif Require Import Base.Hex Model.Prim Proofs.C03_Lib Proofs.C03_Num Proofs.C03_Bytes Proofs.C03.
 Import ListNotations.
@@ -43,7 +45,7 @@ Definition C03_section_1 := (C03_roundtrip_varint, C03_prefix_rejected_varint, C
 Print Assumptions C03_section_1.
 
 
-(* Booleans and 8-bit integers (ReadByte based: no deviation). *)
+(* Booleans and 8-bit integers (ReadByte based). *)
 
 Theorem C03_roundtrip_bool :
   forall (v : bool) rest, True -> read_bool (write_bool v ++ rest) = Ok (v, rest).
@@ -78,65 +80,67 @@ Print Assumptions C03_section_2.
 
 
 (* Fixed-width integers of k bytes, k = 2, 4, 8 (uint16/32/64, float32/64 as bit patterns; int16/32/64,
-   ReadInt).  read_uint true = io.ReadFull (what the clause "reports an error instead of returning a
-   value padded with zeros" demands); read_uint false = the code as written (reader.Read), which equals
-   it unless 0 < available < k and is refuted on that class (finding C03-1). *)
+   ReadInt).  impl_read_uint = today's reader (io.ReadFull): the clause "reports an error instead of
+   returning a value padded with zeros" holds for it.  HISTORY: old_read_uint is the reader before fix
+   commit 2257945 (reader.Read, finding C03-1, fixed): it equalled today's reader unless 0 < available
+   < k and is refuted on that class. *)
 
 Theorem C03_roundtrip_uint :
   forall k, (0 < k)%nat -> forall v rest, v < 256 ^ N.of_nat k ->
-  read_uint true (N.of_nat k) (write_uint k v ++ rest) = Ok (v, rest).
+  impl_read_uint (N.of_nat k) (write_uint k v ++ rest) = Ok (v, rest).
 Proof. exact roundtrip_uint. Qed.
 
 Theorem C03_prefix_rejected_uint :
   forall k, (0 < k)%nat -> forall v p q, v < 256 ^ N.of_nat k -> q <> [] ->
-  write_uint k v = p ++ q -> exists e, read_uint true (N.of_nat k) p = Err e.
+  write_uint k v = p ++ q -> exists e, impl_read_uint (N.of_nat k) p = Err e.
 Proof. exact prefix_rejected_uint. Qed.
 
 Theorem C03_roundtrip_int :
   forall k, (0 < k)%nat -> forall v rest,
   (- Z.of_N (2 ^ (8 * N.of_nat k - 1)) <= v < Z.of_N (2 ^ (8 * N.of_nat k - 1)))%Z ->
-  read_int true (N.of_nat k) (write_int k v ++ rest) = Ok (v, rest).
+  read_int (N.of_nat k) (write_int k v ++ rest) = Ok (v, rest).
 Proof. exact roundtrip_int. Qed.
 
 Theorem C03_prefix_rejected_int :
   forall k, (0 < k)%nat -> forall v p q,
   (- Z.of_N (2 ^ (8 * N.of_nat k - 1)) <= v < Z.of_N (2 ^ (8 * N.of_nat k - 1)))%Z -> q <> [] ->
-  write_int k v = p ++ q -> exists e, read_int true (N.of_nat k) p = Err e.
+  write_int k v = p ++ q -> exists e, read_int (N.of_nat k) p = Err e.
 Proof. exact prefix_rejected_int. Qed.
 
 Example C03_ex_uint64 :
   (0 < 8)%nat /\ 18446744073709551615 < 256 ^ N.of_nat 8 /\
-  read_uint true 8 (write_uint 8 18446744073709551615 ++ [1]) = Ok (18446744073709551615, [1]) /\
-  (exists e, read_uint true 8 [255; 255; 255] = Err e).
+  impl_read_uint 8 (write_uint 8 18446744073709551615 ++ [1]) = Ok (18446744073709551615, [1]) /\
+  (exists e, impl_read_uint 8 [255; 255; 255] = Err e).
 Proof. exact ex_uint64. Qed.
 
 Example C03_ex_int32 :
   (- Z.of_N (2 ^ (8 * N.of_nat 4 - 1)) <= -2 < Z.of_N (2 ^ (8 * N.of_nat 4 - 1)))%Z /\
   write_int 4 (-2) = [255; 255; 255; 254] /\
-  read_int true 4 (write_int 4 (-2)) = Ok ((-2)%Z, []).
+  read_int 4 (write_int 4 (-2)) = Ok ((-2)%Z, []).
 Proof. exact ex_int32. Qed.
 
-Theorem C03_impl_uint_off_trigger :
+Theorem C03_old_uint_off_trigger :
   forall w s, 0 < w -> (s = [] \/ w <= len s) ->
-  read_uint false w s = read_uint true w s.
-Proof. exact impl_uint_off_trigger. Qed.
+  old_read_uint w s = impl_read_uint w s.
+Proof. exact old_uint_off_trigger. Qed.
 
-Theorem C03_impl_uint_on_trigger :
+Theorem C03_old_uint_on_trigger :
   forall w s, 0 < len s < w ->
-  read_uint false w s = Ok (be_val (s ++ zeros (w - len s)), []).
-Proof. exact impl_uint_on_trigger. Qed.
+  old_read_uint w s = Ok (be_val (s ++ zeros (w - len s)), []).
+Proof. exact old_uint_on_trigger. Qed.
 
-Theorem C03_impl_uint16_prefix_accepted :
-  sprefix [18] (write_uint 2 4660) /\ impl_read_uint 2 [18] = Ok (4608, []).
-Proof. exact impl_uint16_prefix_accepted. Qed.
+Theorem C03_old_uint16_prefix_accepted :
+  sprefix [18] (write_uint 2 4660) /\ old_read_uint 2 [18] = Ok (4608, []) /\
+  impl_read_uint 2 [18] = Err EUnexpectedEOF.
+Proof. exact old_uint16_prefix_accepted. Qed.
 
 (* one Print Assumptions for all theorems of the section above (a pair is closed iff both components are) *)
-Definition C03_section_3 := (C03_roundtrip_uint, C03_prefix_rejected_uint, C03_roundtrip_int, C03_prefix_rejected_int, C03_impl_uint_off_trigger, C03_impl_uint_on_trigger, C03_impl_uint16_prefix_accepted).
+Definition C03_section_3 := (C03_roundtrip_uint, C03_prefix_rejected_uint, C03_roundtrip_int, C03_prefix_rejected_int, C03_old_uint_off_trigger, C03_old_uint_on_trigger, C03_old_uint16_prefix_accepted).
 Print Assumptions C03_section_3.
 
 
-(* UUIDs, both layouts (two longs; four ints).  ReadUUIDIntArray inherits finding C03-1 through
-   ReadInt. *)
+(* UUIDs, both layouts (two longs; four ints).  HISTORY: ReadUUIDIntArray inherited finding C03-1
+   through ReadInt. *)
 
 Theorem C03_roundtrip_uuid :
   forall u rest, length u = 16%nat /\ wf_bytes u ->
@@ -150,28 +154,29 @@ Proof. exact prefix_rejected_uuid. Qed.
 
 Theorem C03_roundtrip_uuid_ints :
   forall u rest, length u = 16%nat /\ wf_bytes u ->
-  read_uuid_ints true (write_uuid_ints u ++ rest) = Ok (u, rest).
+  impl_read_uuid_ints (write_uuid_ints u ++ rest) = Ok (u, rest).
 Proof. exact roundtrip_uuid_ints. Qed.
 
 Theorem C03_prefix_rejected_uuid_ints :
   forall u p q, length u = 16%nat /\ wf_bytes u -> q <> [] ->
-  write_uuid_ints u = p ++ q -> exists e, read_uuid_ints true p = Err e.
+  write_uuid_ints u = p ++ q -> exists e, impl_read_uuid_ints p = Err e.
 Proof. exact prefix_rejected_uuid_ints. Qed.
 
 Example C03_ex_uuid :
   let u := [1;2;3;4;5;6;7;8;9;10;11;12;13;14;15;255] in
   (length u = 16%nat /\ wf_bytes u) /\ write_uuid u = u /\ write_uuid_ints u = u /\
-  read_uuid_ints true (u ++ [9]) = Ok (u, [9]).
+  impl_read_uuid_ints (u ++ [9]) = Ok (u, [9]).
 Proof. exact ex_uuid. Qed.
 
-Theorem C03_impl_uuid_ints_prefix_accepted :
+Theorem C03_old_uuid_ints_prefix_accepted :
   let u := [1;2;3;4;5;6;7;8;9;10;11;12;13;14;15;16] in
   dom_uuid u /\ sprefix (firstn 13 u) (write_uuid_ints u) /\
-  read_uuid_ints false (firstn 13 u) = Ok ([1;2;3;4;5;6;7;8;9;10;11;12;13;0;0;0], []).
-Proof. exact impl_uuid_ints_prefix_accepted. Qed.
+  old_read_uuid_ints (firstn 13 u) = Ok ([1;2;3;4;5;6;7;8;9;10;11;12;13;0;0;0], []) /\
+  impl_read_uuid_ints (firstn 13 u) = Err EUnexpectedEOF.
+Proof. exact old_uuid_ints_prefix_accepted. Qed.
 
 (* one Print Assumptions for all theorems of the section above (a pair is closed iff both components are) *)
-Definition C03_section_4 := (C03_roundtrip_uuid, C03_prefix_rejected_uuid, C03_roundtrip_uuid_ints, C03_prefix_rejected_uuid_ints, C03_impl_uuid_ints_prefix_accepted).
+Definition C03_section_4 := (C03_roundtrip_uuid, C03_prefix_rejected_uuid, C03_roundtrip_uuid_ints, C03_prefix_rejected_uuid_ints, C03_old_uuid_ints_prefix_accepted).
 Print Assumptions C03_section_4.
 
 
@@ -213,7 +218,7 @@ Example C03_ex_bad_length :
   len_string 16 (write_varint 65 ++ [1; 2]) = Err EOverLimit /\
   len_bytes 65536 (write_varint 65537) = Err EOverLimit /\
   len_bytes 65536 (write_varint 2147483647) = Err EOverLimit /\
-  len_bytes17 true true (write_fshort true 2097051 ++ [1]) = Err EOverLimit /\
+  len_bytes17 (impl_write_fshort 2097051 ++ [1]) = Err EOverLimit /\
   read_string_array (write_varint (-1)) = Err ENegLen.
 Proof. exact ex_bad_length. Qed.
 
@@ -222,116 +227,128 @@ Definition C03_section_5 := (C03_roundtrip_string, C03_prefix_rejected_string, C
 Print Assumptions C03_section_5.
 
 
-(* Length-prefixed byte arrays (WriteBytes / ReadBytesLen max).  read_bytes_len true = io.ReadFull;
-   false = the code as written (one rd.Read), refuted on: empty array at the end of the input,
-   truncated array (finding C03-2).  The length checks are shared by both. *)
+(* Length-prefixed byte arrays (WriteBytes / ReadBytesLen max).  impl_read_bytes_len = today's reader
+   (io.ReadFull).  HISTORY: old_read_bytes_len is the reader before fix commit 4d8a5a4 (one rd.Read,
+   finding C03-2, fixed), refuted on: empty array at the end of the input, truncated array.  The length
+   checks are shared by both. *)
 
 Theorem C03_roundtrip_bytes :
   forall max v rest, (Z.of_N (len v) <= max)%Z /\ (Z.of_N (len v) < 2 ^ 31)%Z ->
-  read_bytes_len true max (write_bytes v ++ rest) = Ok (v, rest).
+  impl_read_bytes_len max (write_bytes v ++ rest) = Ok (v, rest).
 Proof. exact roundtrip_bytes. Qed.
 
 Theorem C03_prefix_rejected_bytes :
   forall max v p q, (Z.of_N (len v) <= max)%Z /\ (Z.of_N (len v) < 2 ^ 31)%Z ->
-  q <> [] -> write_bytes v = p ++ q -> exists e, read_bytes_len true max p = Err e.
+  q <> [] -> write_bytes v = p ++ q -> exists e, impl_read_bytes_len max p = Err e.
 Proof. exact prefix_rejected_bytes. Qed.
 
 Theorem C03_bad_length_rejected_bytes :
-  forall fx2 max l tail, (- 2 ^ 31 <= l < 2 ^ 31)%Z -> (l < 0 \/ max < l)%Z ->
+  forall max l tail, (- 2 ^ 31 <= l < 2 ^ 31)%Z -> (l < 0 \/ max < l)%Z ->
   len_bytes max (write_varint l ++ tail) = Err (if (l <? 0)%Z then ENegLen else EOverLimit) /\
-  read_bytes_len fx2 max (write_varint l ++ tail) = Err (if (l <? 0)%Z then ENegLen else EOverLimit).
+  impl_read_bytes_len max (write_varint l ++ tail) = Err (if (l <? 0)%Z then ENegLen else EOverLimit) /\
+  old_read_bytes_len max (write_varint l ++ tail) = Err (if (l <? 0)%Z then ENegLen else EOverLimit).
 Proof. exact bad_length_rejected_bytes. Qed.
 
 Theorem C03_alloc_bounded_bytes :
   forall max s n r, len_bytes max s = Ok (n, r) -> (Z.of_N n <= max)%Z.
 Proof. exact alloc_bounded_bytes. Qed.
 
-Theorem C03_impl_bytes_off_trigger :
+Theorem C03_old_bytes_off_trigger :
   forall max s,
   (forall n r, len_bytes max s = Ok (n, r) -> ~ (n = 0 /\ r = []) /\ ~ (0 < len r < n)) ->
-  read_bytes_len false max s = read_bytes_len true max s.
-Proof. exact impl_bytes_off_trigger. Qed.
+  old_read_bytes_len max s = impl_read_bytes_len max s.
+Proof. exact old_bytes_off_trigger. Qed.
 
 Example C03_ex_bytes_empty_at_end :
-  read_bytes_len true 65536 (write_bytes [] ++ []) = Ok ([], []) /\
-  read_bytes_len false 65536 (write_bytes [] ++ []) = Err EEOF.
+  impl_read_bytes_len 65536 (write_bytes [] ++ []) = Ok ([], []) /\
+  old_read_bytes_len 65536 (write_bytes [] ++ []) = Err EEOF.
 Proof. exact ex_bytes_empty_at_end. Qed.
 
-Theorem C03_impl_bytes_empty_at_end :
-  impl_read_bytes_len default_max (write_bytes [] ++ []) = Err EEOF.
-Proof. exact impl_bytes_empty_at_end. Qed.
+Theorem C03_old_bytes_empty_at_end :
+  old_read_bytes_len default_max (write_bytes [] ++ []) = Err EEOF /\
+  impl_read_bytes_len default_max (write_bytes [] ++ []) = Ok ([], []).
+Proof. exact old_bytes_empty_at_end. Qed.
 
-Theorem C03_impl_bytes_prefix_accepted :
+Theorem C03_old_bytes_prefix_accepted :
   sprefix [5;1;2] (write_bytes [1;2;3;4;5]) /\
-  impl_read_bytes_len default_max [5;1;2] = Ok ([1;2;0;0;0], []).
-Proof. exact impl_bytes_prefix_accepted. Qed.
+  old_read_bytes_len default_max [5;1;2] = Ok ([1;2;0;0;0], []) /\
+  impl_read_bytes_len default_max [5;1;2] = Err EUnexpectedEOF.
+Proof. exact old_bytes_prefix_accepted. Qed.
 
 (* one Print Assumptions for all theorems of the section above (a pair is closed iff both components are) *)
-Definition C03_section_6 := (C03_roundtrip_bytes, C03_prefix_rejected_bytes, C03_bad_length_rejected_bytes, C03_alloc_bounded_bytes, C03_impl_bytes_off_trigger, C03_impl_bytes_empty_at_end, C03_impl_bytes_prefix_accepted).
+Definition C03_section_6 := (C03_roundtrip_bytes, C03_prefix_rejected_bytes, C03_bad_length_rejected_bytes, C03_alloc_bounded_bytes, C03_old_bytes_off_trigger, C03_old_bytes_empty_at_end, C03_old_bytes_prefix_accepted).
 Print Assumptions C03_section_6.
 
 
-(* 1.7-style arrays: extended Forge short (2-byte short, optional third byte) + bytes.  Flags of
-   read_bytes17: fx1 (the short is read with io.ReadFull), fx2 (the body is read with io.ReadFull), fx3
-   (2-byte format); the code as written keeps one byte of the short (finding C03-3). *)
+(* 1.7-style arrays: extended Forge short (2-byte short, optional third byte) + bytes.
+   impl_write_fshort / impl_read_fshort transcribe today's bit-operation code; fshort_impl_is_spec
+   shows it is the arithmetic Forge / Velocity format spec_*.  HISTORY: old_* is the one-byte short
+   before fix commit 6e760d1 (finding C03-3, fixed). *)
 
 Theorem C03_roundtrip_fshort :
   forall n rest, n < 2 ^ 23 ->
-  read_fshort true true (write_fshort true n ++ rest) = Ok (n, rest).
+  impl_read_fshort (impl_write_fshort n ++ rest) = Ok (n, rest).
 Proof. exact roundtrip_fshort. Qed.
 
 Theorem C03_prefix_rejected_fshort :
   forall n p q, n < 2 ^ 23 -> q <> [] ->
-  write_fshort true n = p ++ q -> exists e, read_fshort true true p = Err e.
+  impl_write_fshort n = p ++ q -> exists e, impl_read_fshort p = Err e.
 Proof. exact prefix_rejected_fshort. Qed.
 
+Theorem C03_fshort_impl_is_spec :
+  (forall n, impl_write_fshort n = spec_write_fshort n) /\
+  (forall low r, low < 65536 -> impl_fshort_tail low r = spec_fshort_tail low r) /\
+  (forall s, wf_bytes (firstn 2 s) -> impl_read_fshort s = spec_read_fshort s).
+Proof. exact fshort_impl_is_spec. Qed.
+
 Theorem C03_roundtrip_bytes17 :
-  forall ext v e rest, write_bytes17 true ext v = Ok e ->
-  read_bytes17 true true true (e ++ rest) = Ok (v, rest).
+  forall ext v e rest, write_bytes17 ext v = Ok e ->
+  impl_read_bytes17 (e ++ rest) = Ok (v, rest).
 Proof. exact roundtrip_bytes17. Qed.
 
 Theorem C03_prefix_rejected_bytes17 :
-  forall ext v e p q, write_bytes17 true ext v = Ok e -> q <> [] ->
-  e = p ++ q -> exists er, read_bytes17 true true true p = Err er.
+  forall ext v e p q, write_bytes17 ext v = Ok e -> q <> [] ->
+  e = p ++ q -> exists er, impl_read_bytes17 p = Err er.
 Proof. exact prefix_rejected_bytes17. Qed.
 
 Theorem C03_write_bytes17_domain :
-  forall fx3 ext v,
-  (exists e, write_bytes17 fx3 ext v = Ok e) <-> len v <= (if ext then forge_max else 32767).
+  forall ext v,
+  (exists e, write_bytes17 ext v = Ok e) <-> len v <= (if ext then forge_max else 32767).
 Proof. exact write_bytes17_domain. Qed.
 
 Theorem C03_bad_length_rejected_bytes17 :
-  forall fx2 n tail, n < 2 ^ 23 -> forge_max < n ->
-  len_bytes17 true true (write_fshort true n ++ tail) = Err EOverLimit /\
-  read_bytes17 true fx2 true (write_fshort true n ++ tail) = Err EOverLimit.
+  forall n tail, n < 2 ^ 23 -> forge_max < n ->
+  len_bytes17 (impl_write_fshort n ++ tail) = Err EOverLimit /\
+  impl_read_bytes17 (impl_write_fshort n ++ tail) = Err EOverLimit.
 Proof. exact bad_length_rejected_bytes17. Qed.
 
 Theorem C03_alloc_bounded_bytes17 :
-  forall fx1 fx3 s n r, len_bytes17 fx1 fx3 s = Ok (n, r) -> n <= forge_max.
+  forall rfs s n r, len_bytes17_with rfs s = Ok (n, r) -> n <= forge_max.
 Proof. exact alloc_bounded_bytes17. Qed.
 
 Example C03_ex_bytes17 :
   let v := repeat 7 300 in
-  write_bytes17 true true v = Ok ([1; 44] ++ v) /\
-  read_bytes17 true true true (([1; 44] ++ v) ++ [5]) = Ok (v, [5]) /\
-  write_fshort true 40000 = [156; 64; 1] /\
-  read_fshort true true [156; 64; 1; 9] = Ok (40000, [9]) /\
-  (exists e, read_fshort true true [156; 64] = Err e).
+  write_bytes17 true v = Ok ([1; 44] ++ v) /\
+  impl_read_bytes17 (([1; 44] ++ v) ++ [5]) = Ok (v, [5]) /\
+  impl_write_fshort 40000 = [156; 64; 1] /\
+  impl_read_fshort [156; 64; 1; 9] = Ok (40000, [9]) /\
+  (exists e, impl_read_fshort [156; 64] = Err e).
 Proof. exact ex_bytes17. Qed.
 
-Theorem C03_impl_bytes17_300 :
+Theorem C03_old_bytes17_300 :
   let v := repeat 7 300 in
-  write_bytes17 false true v = Ok (44 :: v) /\
-  read_bytes17 true true false (44 :: v) = Ok (repeat 7 44, repeat 7 256) /\
-  read_bytes17 false false false (44 :: v) = Ok (repeat 7 44, repeat 7 256).
-Proof. exact impl_bytes17_300. Qed.
+  old_write_bytes17 true v = Ok (44 :: v) /\
+  old_read_bytes17 (44 :: v) = Ok (repeat 7 44, repeat 7 256) /\
+  write_bytes17 true v = Ok (1 :: 44 :: v) /\
+  impl_read_bytes17 (1 :: 44 :: v) = Ok (v, []).
+Proof. exact old_bytes17_300. Qed.
 
-Theorem C03_impl_fshort_differs :
-  impl_write_fshort 5 = [5] /\ spec_write_fshort 5 = [0; 5].
-Proof. exact impl_fshort_differs. Qed.
+Theorem C03_old_fshort_differs :
+  old_write_fshort 5 = [5] /\ spec_write_fshort 5 = [0; 5] /\ impl_write_fshort 5 = [0; 5].
+Proof. exact old_fshort_differs. Qed.
 
 (* one Print Assumptions for all theorems of the section above (a pair is closed iff both components are) *)
-Definition C03_section_7 := (C03_roundtrip_fshort, C03_prefix_rejected_fshort, C03_roundtrip_bytes17, C03_prefix_rejected_bytes17, C03_write_bytes17_domain, C03_bad_length_rejected_bytes17, C03_alloc_bounded_bytes17, C03_impl_bytes17_300, C03_impl_fshort_differs).
+Definition C03_section_7 := (C03_roundtrip_fshort, C03_prefix_rejected_fshort, C03_fshort_impl_is_spec, C03_roundtrip_bytes17, C03_prefix_rejected_bytes17, C03_write_bytes17_domain, C03_bad_length_rejected_bytes17, C03_alloc_bounded_bytes17, C03_old_bytes17_300, C03_old_fshort_differs).
 Print Assumptions C03_section_7.
 
 
@@ -339,8 +356,8 @@ Print Assumptions C03_section_7.
    properties.  The model's loop carries fuel 1 + remaining bytes; counted_loop_fuel_irrelevant shows
    that any larger fuel gives the same result (every element read consumes a byte), i.e. it is the
    unbounded Go loop.  Negative counts are rejected by the header before make(), the capacity passed to
-   make() is at most MaxPreAllocSize; ReadProperties as written lacks the test and panics (finding
-   C03-4). *)
+   make() is at most MaxPreAllocSize.  HISTORY: before fix commit 94741d1 ReadProperties lacked the
+   test and panicked (finding C03-4, fixed). *)
 
 Theorem C03_roundtrip_string_array :
   forall vs rest,
@@ -371,20 +388,20 @@ Proof. exact prefix_rejected_varint_array. Qed.
 Theorem C03_roundtrip_properties :
   forall ps rest,
   Forall dom_property ps /\ (Z.of_nat (length ps) < 2 ^ 31)%Z ->
-  read_properties true (write_properties ps ++ rest) = Ok (ps, rest).
+  impl_read_properties (write_properties ps ++ rest) = Ok (ps, rest).
 Proof. exact roundtrip_properties. Qed.
 
 Theorem C03_prefix_rejected_properties :
   forall ps p q,
   Forall dom_property ps /\ (Z.of_nat (length ps) < 2 ^ 31)%Z ->
-  q <> [] -> write_properties ps = p ++ q -> exists e, read_properties true p = Err e.
+  q <> [] -> write_properties ps = p ++ q -> exists e, impl_read_properties p = Err e.
 Proof. exact prefix_rejected_properties. Qed.
 
-Theorem C03_roundtrip_properties_impl :
+Theorem C03_roundtrip_properties_old :
   forall ps rest,
   Forall dom_property ps /\ (Z.of_nat (length ps) < 2 ^ 31)%Z ->
-  read_properties false (write_properties ps ++ rest) = Ok (ps, rest).
-Proof. exact roundtrip_properties_impl. Qed.
+  old_read_properties (write_properties ps ++ rest) = Ok (ps, rest).
+Proof. exact roundtrip_properties_old. Qed.
 
 Theorem C03_negative_count_rejected :
   forall (A : Type) (d : dec_t A) neg l tail, (- 2 ^ 31 <= l < 0)%Z ->
@@ -410,54 +427,55 @@ Example C03_ex_properties :
   let ps := [([110], ([118], [])); ([97; 98], ([], [115; 105; 103]))] in
   (Forall dom_property ps /\ (Z.of_nat (length ps) < 2 ^ 31)%Z) /\
   write_properties ps = [2; 1; 110; 1; 118; 0; 2; 97; 98; 0; 1; 3; 115; 105; 103] /\
-  read_properties true (write_properties ps ++ [4]) = Ok (ps, [4]) /\
-  (exists e, read_properties true [2; 1; 110; 1; 118; 0] = Err e).
+  impl_read_properties (write_properties ps ++ [4]) = Ok (ps, [4]) /\
+  (exists e, impl_read_properties [2; 1; 110; 1; 118; 0] = Err e).
 Proof. exact ex_properties. Qed.
 
-Theorem C03_impl_properties_negative_panics :
-  forall tail, read_properties false (write_varint (-1) ++ tail) = Err EPanic /\
-  read_properties true (write_varint (-1) ++ tail) = Err ENegLen.
-Proof. exact impl_properties_negative_panics. Qed.
+Theorem C03_old_properties_negative_panics :
+  forall tail, old_read_properties (write_varint (-1) ++ tail) = Err EPanic /\
+  impl_read_properties (write_varint (-1) ++ tail) = Err ENegLen.
+Proof. exact old_properties_negative_panics. Qed.
 
 (* one Print Assumptions for all theorems of the section above (a pair is closed iff both components are) *)
-Definition C03_section_8 := (C03_roundtrip_string_array, C03_prefix_rejected_string_array, C03_roundtrip_varint_array, C03_prefix_rejected_varint_array, C03_roundtrip_properties, C03_prefix_rejected_properties, C03_roundtrip_properties_impl, C03_negative_count_rejected, C03_alloc_bounded_counted, C03_counted_loop_fuel_irrelevant, C03_impl_properties_negative_panics).
+Definition C03_section_8 := (C03_roundtrip_string_array, C03_prefix_rejected_string_array, C03_roundtrip_varint_array, C03_prefix_rejected_varint_array, C03_roundtrip_properties, C03_prefix_rejected_properties, C03_roundtrip_properties_old, C03_negative_count_rejected, C03_alloc_bounded_counted, C03_counted_loop_fuel_irrelevant, C03_old_properties_negative_panics).
 Print Assumptions C03_section_8.
 
 
-(* UTF strings (WriteUTF / ReadUTF).  The uint16 length goes through ReadUint16, so finding C03-1
-   reaches it. *)
+(* UTF strings (WriteUTF / ReadUTF).  HISTORY: the uint16 length goes through ReadUint16, so finding
+   C03-1 reached it. *)
 
 Theorem C03_roundtrip_utf :
-  forall v rest, len v < 65536 -> read_utf true (write_utf v ++ rest) = Ok (v, rest).
+  forall v rest, len v < 65536 -> impl_read_utf (write_utf v ++ rest) = Ok (v, rest).
 Proof. exact roundtrip_utf. Qed.
 
 Theorem C03_prefix_rejected_utf :
   forall v p q, len v < 65536 -> q <> [] ->
-  write_utf v = p ++ q -> exists e, read_utf true p = Err e.
+  write_utf v = p ++ q -> exists e, impl_read_utf p = Err e.
 Proof. exact prefix_rejected_utf. Qed.
 
 Theorem C03_alloc_bounded_utf :
-  forall fx1 s n r, wf_bytes s -> read_uint fx1 2 s = Ok (n, r) -> n < 65536.
+  forall s n r, wf_bytes s ->
+  (impl_read_uint 2 s = Ok (n, r) \/ old_read_uint 2 s = Ok (n, r)) -> n < 65536.
 Proof. exact alloc_bounded_utf. Qed.
 
 Example C03_ex_utf :
   len [104; 105] < 65536 /\ write_utf [104; 105] = [0; 2; 104; 105] /\
-  read_utf true (write_utf [104; 105] ++ [1]) = Ok ([104; 105], [1]) /\
-  (exists e, read_utf true [0] = Err e).
+  impl_read_utf (write_utf [104; 105] ++ [1]) = Ok ([104; 105], [1]) /\
+  (exists e, impl_read_utf [0] = Err e).
 Proof. exact ex_utf. Qed.
 
-Theorem C03_impl_utf_prefix_accepted :
-  sprefix [0] (write_utf []) /\ read_utf false [0] = Ok ([], []).
-Proof. exact impl_utf_prefix_accepted. Qed.
+Theorem C03_old_utf_prefix_accepted :
+  sprefix [0] (write_utf []) /\ old_read_utf [0] = Ok ([], []) /\ impl_read_utf [0] = Err EUnexpectedEOF.
+Proof. exact old_utf_prefix_accepted. Qed.
 
 (* one Print Assumptions for all theorems of the section above (a pair is closed iff both components are) *)
-Definition C03_section_9 := (C03_roundtrip_utf, C03_prefix_rejected_utf, C03_alloc_bounded_utf, C03_impl_utf_prefix_accepted).
+Definition C03_section_9 := (C03_roundtrip_utf, C03_prefix_rejected_utf, C03_alloc_bounded_utf, C03_old_utf_prefix_accepted).
 Print Assumptions C03_section_9.
 
 
 (* Resource keys (WriteKey / ReadKey, arrays, minimal keys).  dom_key = valid key (ValidateKey) with a
-   non-empty namespace whose text fits a string.  ReadMinimalKey as written forgets an explicit
-   namespace (finding C03-5). *)
+   non-empty namespace whose text fits a string.  HISTORY: before fix commit 23e030f ReadMinimalKey
+   forgot an explicit namespace (finding C03-5, fixed). *)
 
 Theorem C03_roundtrip_key :
   forall k e rest, dom_key k -> write_key k = Ok e -> read_key (e ++ rest) = Ok (k, rest).
@@ -486,12 +504,12 @@ Proof. exact prefix_rejected_key_array. Qed.
 
 Theorem C03_roundtrip_minimal_key :
   forall k rest, dom_key k /\ dom_string0 (key_minimal k) ->
-  read_minimal_key true (write_minimal_key k ++ rest) = Ok (k, rest).
+  impl_read_minimal_key (write_minimal_key k ++ rest) = Ok (k, rest).
 Proof. exact roundtrip_minimal_key. Qed.
 
 Theorem C03_prefix_rejected_minimal_key :
   forall k p q, dom_key k /\ dom_string0 (key_minimal k) -> q <> [] ->
-  write_minimal_key k = p ++ q -> exists e, read_minimal_key true p = Err e.
+  write_minimal_key k = p ++ q -> exists e, impl_read_minimal_key p = Err e.
 Proof. exact prefix_rejected_minimal_key. Qed.
 
 Example C03_ex_key :
@@ -499,23 +517,23 @@ Example C03_ex_key :
   dom_key k /\ (dom_key k /\ dom_string0 (key_minimal k)) /\
   write_key k = Ok [9; 102; 111; 111; 58; 98; 97; 114; 47; 122] /\
   read_key [9; 102; 111; 111; 58; 98; 97; 114; 47; 122; 1] = Ok (k, [1]) /\
-  read_minimal_key true (write_minimal_key k) = Ok (k, []) /\
-  read_minimal_key true (write_minimal_key (minecraft, [120])) = Ok ((minecraft, [120]), []).
+  impl_read_minimal_key (write_minimal_key k) = Ok (k, []) /\
+  impl_read_minimal_key (write_minimal_key (minecraft, [120])) = Ok ((minecraft, [120]), []).
 Proof. exact ex_key. Qed.
 
-Theorem C03_impl_minimal_key_namespace :
+Theorem C03_old_minimal_key_namespace :
   let k := ([102;111;111], [98;97;114]) in          
   dom_minkey k /\
-  impl_read_minimal_key (write_minimal_key k) = Ok ((minecraft, [102;111;111;58;98;97;114]), []) /\
-  spec_read_minimal_key (write_minimal_key k) = Ok (k, []).
-Proof. exact impl_minimal_key_namespace. Qed.
+  old_read_minimal_key (write_minimal_key k) = Ok ((minecraft, [102;111;111;58;98;97;114]), []) /\
+  impl_read_minimal_key (write_minimal_key k) = Ok (k, []).
+Proof. exact old_minimal_key_namespace. Qed.
 
 (* one Print Assumptions for all theorems of the section above (a pair is closed iff both components are) *)
-Definition C03_section_10 := (C03_roundtrip_key, C03_prefix_rejected_key, C03_write_key_total, C03_roundtrip_key_array, C03_prefix_rejected_key_array, C03_roundtrip_minimal_key, C03_prefix_rejected_minimal_key, C03_impl_minimal_key_namespace).
+Definition C03_section_10 := (C03_roundtrip_key, C03_prefix_rejected_key, C03_write_key_total, C03_roundtrip_key_array, C03_prefix_rejected_key_array, C03_roundtrip_minimal_key, C03_prefix_rejected_minimal_key, C03_old_minimal_key_namespace).
 Print Assumptions C03_section_10.
 
 
-(* All specification-level codecs at once (codec_ok = exact inverse on the domain /\ every strict
+(* All codecs of the code as it is now at once (codec_ok = exact inverse on the domain /\ every strict
    prefix rejected /\ encodings non-empty; Proofs/C03_Lib.v). *)
 
 Theorem C03_all :
@@ -523,23 +541,23 @@ Theorem C03_all :
   codec_ok (fun _ => True) write_bool read_bool /\
   codec_ok (fun x => x < 256) write_uint8 read_uint8 /\
   codec_ok (fun z => (-128 <= z < 128)%Z) write_int8 read_int8 /\
-  (forall k, (0 < k)%nat -> codec_ok (fun x => x < 256 ^ N.of_nat k) (write_uint k) (read_uint true (N.of_nat k))) /\
+  (forall k, (0 < k)%nat -> codec_ok (fun x => x < 256 ^ N.of_nat k) (write_uint k) (impl_read_uint (N.of_nat k))) /\
   (forall k, (0 < k)%nat ->
      codec_ok (fun z => (- Z.of_N (2 ^ (8 * N.of_nat k - 1)) <= z < Z.of_N (2 ^ (8 * N.of_nat k - 1)))%Z)
-              (write_int k) (read_int true (N.of_nat k))) /\
+              (write_int k) (read_int (N.of_nat k))) /\
   codec_ok dom_uuid write_uuid read_uuid /\
-  codec_ok dom_uuid write_uuid_ints (read_uuid_ints true) /\
+  codec_ok dom_uuid write_uuid_ints (impl_read_uuid_ints) /\
   (forall max, codec_ok (dom_string max) write_string (read_string_max max)) /\
-  (forall max, codec_ok (dom_bytes max) write_bytes (read_bytes_len true max)) /\
-  codec_ok dom_fshort (write_fshort true) (read_fshort true true) /\
-  codec_ok (fun v => len v <= forge_max) (fun v => write_fshort true (len v) ++ v) (read_bytes17 true true true) /\
+  (forall max, codec_ok (dom_bytes max) write_bytes (impl_read_bytes_len max)) /\
+  codec_ok dom_fshort (impl_write_fshort) (impl_read_fshort) /\
+  codec_ok (fun v => len v <= forge_max) (fun v => impl_write_fshort (len v) ++ v) (impl_read_bytes17) /\
   codec_ok (dom_list dom_string0) write_strings read_string_array /\
   codec_ok (dom_list dom_varint) write_varint_array read_varint_array /\
-  codec_ok (dom_list dom_property) write_properties (read_properties true) /\
-  codec_ok (fun v => len v < 65536) write_utf (read_utf true) /\
+  codec_ok (dom_list dom_property) write_properties (impl_read_properties) /\
+  codec_ok (fun v => len v < 65536) write_utf (impl_read_utf) /\
   codec_ok dom_key (fun k => write_string (key_string k)) read_key /\
   codec_ok (dom_list dom_key) (write_counted (fun k => write_string (key_string k))) read_key_array /\
-  codec_ok dom_minkey write_minimal_key (read_minimal_key true).
-Proof. exact C03_all_spec. Qed.
+  codec_ok dom_minkey write_minimal_key (impl_read_minimal_key).
+Proof. exact C03_all_impl. Qed.
 
 Print Assumptions C03_all.
